@@ -44,19 +44,20 @@ theorem processBatch_spec {cfg : Cfg} (P : Params α) {den : Key → α} :
         s'.st.finished.length = s.st.finished.length + rest.length) ∧
       (∀ k, o = some k → P.fails k = true ∧ k ∈ rest.map (·.1) ∧
         ∃ rest', BatchInv cfg den rest' s' ∧ k ∈ rest'.map (·.1)) ∧
-      (∀ k, k ∈ s.st.finished → k ∈ s'.st.finished) ∧ s'.st.dependencies = s.st.dependencies := by
+      (∀ k, k ∈ s.st.finished → k ∈ s'.st.finished) ∧ s'.st.dependencies = s.st.dependencies ∧
+      (∀ k, k ∈ s'.st.finished → k ∈ s.st.finished ∨ P.fails k = false) := by
   intro rest
   induction rest with
   | nil =>
     intro s h
-    exact ⟨s, none, rfl, rfl, fun _ => ⟨h, by simp, by simp⟩, (by intro k hk; cases hk), fun k hk => hk, rfl⟩
+    exact ⟨s, none, rfl, rfl, fun _ => ⟨h, by simp, by simp⟩, (by intro k hk; cases hk), fun k hk => hk, rfl, fun k hk => Or.inl hk⟩
   | cons p rest ih =>
     obtain ⟨key, res⟩ := p
     intro s h
     unfold processBatch
     by_cases hf : P.fails key = true
     · simp only [hf, if_true]
-      refine ⟨s, some key, rfl, rfl, (by intro ho; cases ho), ?_, fun k hk => hk, rfl⟩
+      refine ⟨s, some key, rfl, rfl, (by intro ho; cases ho), ?_, fun k hk => hk, rfl, fun k hk => Or.inl hk⟩
       intro k hk
       cases hk
       exact ⟨hf, by simp, (key, res) :: rest, h, by simp⟩
@@ -143,8 +144,17 @@ theorem processBatch_spec {cfg : Cfg} (P : Params α) {den : Key → α} :
           · simp only [List.mem_singleton] at he1
             rw [he1] at hk
             cases hk
-      obtain ⟨s', o, hpb, hpend, hnone, hsome, hmono, hdd⟩ := ih _ hB
-      refine ⟨s', o, hpb, hpend, ?_, ?_, ?_, hdd.trans hdeps'⟩
+      obtain ⟨s', o, hpb, hpend, hnone, hsome, hmono, hdd, hfok⟩ := ih _ hB
+      have hfok' : ∀ k, k ∈ s'.st.finished → k ∈ s.st.finished ∨ P.fails k = false := by
+        intro k hk
+        rcases hfok k hk with h1 | h1
+        · have h1' : k ∈ st'.finished := h1
+          rw [hfin'] at h1'
+          rcases mem_sadd.mp h1' with rfl | h2
+          · right; simpa using hf
+          · exact Or.inl h2
+        · exact Or.inr h1
+      refine ⟨s', o, hpb, hpend, ?_, ?_, ?_, hdd.trans hdeps', hfok'⟩
       · intro ho
         obtain ⟨a, b, c⟩ := hnone ho
         refine ⟨a, ?_, ?_⟩
@@ -193,7 +203,8 @@ theorem iter_spec {cfg : Cfg} (P : Params α) {den : Key → α} (hden : IsDen c
     ∃ s' o, iter cfg P choice s = .ok (s', o) ∧
       (o = none → SysInv cfg den s' ∧ s.st.finished.length < s'.st.finished.length) ∧
       (∀ k, o = some k → P.fails k = true ∧ ∃ rest', BatchInv cfg den rest' s' ∧ k ∈ rest'.map (·.1)) ∧
-      (∀ k, k ∈ s.st.finished → k ∈ s'.st.finished) ∧ s'.st.dependencies = s.st.dependencies := by
+      (∀ k, k ∈ s.st.finished → k ∈ s'.st.finished) ∧ s'.st.dependencies = s.st.dependencies ∧
+      (∀ k, k ∈ s'.st.finished → k ∈ s.st.finished ∨ P.fails k = false) := by
   obtain ⟨s1, hfire, hinv1, hfin1, hwait1, _, _, hdep1, _, ⟨bs, hbs⟩, hprog⟩ := fire_spec P hden hnw hcs h
   have hpne : s1.pending ≠ [] := by
     by_cases hp : s.pending = []
@@ -249,8 +260,11 @@ theorem iter_spec {cfg : Cfg} (P : Params α) {den : Key → α} (hden : IsDen c
         exact hinv1.pendVal p (hperm.mem_iff.mpr (List.mem_append_right _ hp))
       · intro b hb'
         exact hinv1.pendNonempty b (mem_eraseIdx_sub _ _ _ hb')
-    obtain ⟨s', o, hpb, _, hnone, hsome, hmono, hdd⟩ := processBatch_spec P batch _ hB
-    refine ⟨s', o, hpb, ?_, ?_, ?_, hdd.trans hdep1⟩
+    obtain ⟨s', o, hpb, _, hnone, hsome, hmono, hdd, hfok⟩ := processBatch_spec P batch _ hB
+    refine ⟨s', o, hpb, ?_, ?_, ?_, hdd.trans hdep1, fun k hk => by
+      rcases hfok k hk with h1 | h1
+      · exact Or.inl (by rw [← hfin1]; exact h1)
+      · exact Or.inr h1⟩
     · intro ho
       obtain ⟨a, _, c⟩ := hnone ho
       refine ⟨a, ?_⟩
@@ -281,7 +295,8 @@ theorem mainLoop_spec {cfg : Cfg} (P : Params α) {den : Key → α} (hden : IsD
       (o = .starved → SysInv cfg den s' ∧ loopCond s'.st = true ∧
         s.st.finished.length + choices.length ≤ s'.st.finished.length) ∧
       (∀ k, o = .failed k → P.fails k = true ∧ ∃ rest', BatchInv cfg den rest' s' ∧ k ∈ rest'.map (·.1)) ∧
-      (∀ k, k ∈ s.st.finished → k ∈ s'.st.finished) ∧ s'.st.dependencies = s.st.dependencies := by
+      (∀ k, k ∈ s.st.finished → k ∈ s'.st.finished) ∧ s'.st.dependencies = s.st.dependencies ∧
+      (∀ k, k ∈ s'.st.finished → k ∈ s.st.finished ∨ P.fails k = false) := by
   intro choices
   induction choices with
   | nil =>
@@ -290,16 +305,16 @@ theorem mainLoop_spec {cfg : Cfg} (P : Params α) {den : Key → α} (hden : IsD
     unfold mainLoop
     by_cases hl : loopCond s.st = true
     · simp only [hl, if_true]
-      exact ⟨s, .starved, rfl, (by intro ho; cases ho), fun _ => ⟨h, hl, by simp⟩, (by intro k hk; cases hk), fun k hk => hk, rfl⟩
+      exact ⟨s, .starved, rfl, (by intro ho; cases ho), fun _ => ⟨h, hl, by simp⟩, (by intro k hk; cases hk), fun k hk => hk, rfl, fun k hk => Or.inl hk⟩
     · simp only [hl]
       have hl' : loopCond s.st = false := by simpa using hl
-      exact ⟨s, .done, rfl, fun _ => ⟨h, hl'⟩, (by intro ho; cases ho), (by intro k hk; cases hk), fun k hk => hk, rfl⟩
+      exact ⟨s, .done, rfl, fun _ => ⟨h, hl'⟩, (by intro ho; cases ho), (by intro k hk; cases hk), fun k hk => hk, rfl, fun k hk => Or.inl hk⟩
   | cons c cs ih =>
     intro s h
     unfold mainLoop
     by_cases hl : loopCond s.st = true
     · simp only [hl, if_true]
-      rcases iter_spec P hden hnw hcs rank hrank h hl c with hbad | ⟨s1, o1, hit, hnone, hsome, hmono1, hdd1⟩
+      rcases iter_spec P hden hnw hcs rank hrank h hl c with hbad | ⟨s1, o1, hit, hnone, hsome, hmono1, hdd1, hfok1⟩
       · left; rw [hbad]
       · rw [hit]
         cases o1 with
@@ -307,14 +322,17 @@ theorem mainLoop_spec {cfg : Cfg} (P : Params α) {den : Key → α} (hden : IsD
           right
           simp only []
           exact ⟨s1, .failed k, rfl, (by intro ho; cases ho), (by intro ho; cases ho),
-            (by intro k' hk'; cases hk'; exact hsome k rfl), hmono1, hdd1⟩
+            (by intro k' hk'; cases hk'; exact hsome k rfl), hmono1, hdd1, hfok1⟩
         | none =>
           simp only []
           obtain ⟨hinv1, hlt⟩ := hnone rfl
-          rcases ih s1 hinv1 with hbad | ⟨s', o, hml, hdone, hstarved, hfailed, hmono, hdd⟩
+          rcases ih s1 hinv1 with hbad | ⟨s', o, hml, hdone, hstarved, hfailed, hmono, hdd, hfok⟩
           · left; exact hbad
           · right
-            refine ⟨s', o, hml, hdone, ?_, hfailed, fun k hk => hmono k (hmono1 k hk), hdd.trans hdd1⟩
+            refine ⟨s', o, hml, hdone, ?_, hfailed, fun k hk => hmono k (hmono1 k hk), hdd.trans hdd1, fun k hk => by
+              rcases hfok k hk with h1 | h1
+              · exact hfok1 k h1
+              · exact Or.inr h1⟩
             intro ho
             obtain ⟨a, b, c⟩ := hstarved ho
             refine ⟨a, b, ?_⟩
@@ -323,6 +341,6 @@ theorem mainLoop_spec {cfg : Cfg} (P : Params α) {den : Key → α} (hden : IsD
     · right
       simp only [hl]
       have hl' : loopCond s.st = false := by simpa using hl
-      exact ⟨s, .done, rfl, fun _ => ⟨h, hl'⟩, (by intro ho; cases ho), (by intro k hk; cases hk), fun k hk => hk, rfl⟩
+      exact ⟨s, .done, rfl, fun _ => ⟨h, hl'⟩, (by intro ho; cases ho), (by intro k hk; cases hk), fun k hk => hk, rfl, fun k hk => Or.inl hk⟩
 
 end Dask.Sched
